@@ -35,20 +35,20 @@ Section Marshal.
   Hypothesis Hinline : 0 < MaxInlineDepth co.
 
   Theorem marshal_wellformed : forall flg t v prog,
-    has_opts flg (b_empty_arr P) = false ->
     frag e t -> compilable e co t -> has_type (fok_wf P) t v ->
     compile e co t (has_opts flg BitPointerValue) = COk prog ->
     (N.of_nat (need v) <= p_stack P)%N ->
-    exists out, strict (need v) out /\
+    exists out, strict (need v + nil_depth (has_opts flg (b_empty_arr P))) out /\
       (encode P e co flg (Some (t, v)) = Done out \/ encode P e co flg (Some (t, v)) = OutOfFuel).
   Proof.
-    intros flg t v prog Hflg Ht Hcp Hv Hc Hstk.
+    intros flg t v prog Ht Hcp Hv Hc Hstk.
+    set (nn := has_opts flg (b_empty_arr P)).
     assert (Hv1 : has_type (fok P) t v) by (eapply has_type_mono; [|exact Hv]; intros k b x [A _]; exact A).
     assert (Hv2 : has_type fwf t v) by (eapply has_type_mono; [|exact Hv]; intros k b x [_ A]; exact A).
-    destruct (std_total e (fok P) ltac:(intros k b txt (x & -> & _); eexists; reflexivity) t Ht v (S (need v)) false Hv1 (le_n _)) as [res Hstd].
-    pose proof (wellformed_frag e t Ht _ _ _ _ Hv2 Hstd) as Hwf.
+    destruct (std_total e nn (fok P) ltac:(intros k b txt (x & -> & _); eexists; reflexivity) t Ht v (S (need v)) false Hv1 (le_n _)) as [res Hstd].
+    pose proof (wellformed_frag e nn t Ht _ _ _ _ Hv2 Hstd) as Hwf.
     exists (encode_finish flg res). split; [apply encode_finish_strict; exact Hwf|].
-    destruct (exec_frag P e co Hi Hu Hq Hbr Hnull Hinline flg t v (S (need v)) res prog Hflg Ht Hcp Hv1 Hc Hstd Hstk) as (s0 & k & Hcall & Hrun).
+    destruct (exec_frag P e co nn Hi Hu Hq Hbr Hnull Hinline flg t v (S (need v)) res prog eq_refl Ht Hcp Hv1 Hc Hstd Hstk) as (s0 & k & Hcall & Hrun).
     unfold encode, exec_top. rewrite Hcall.
     assert (Hk : k < 2 ^ (40 + k)) by (pose proof (pow2_gt (40 + k)); lia).
     pose proof (Hrun (40 + k) Hk) as H1.
@@ -68,31 +68,32 @@ Proof.
   eapply sval_mono; [apply strict_sub_sval; exact H|]. unfold MAX_RECURSE. cbn. lia.
 Qed.
 
-Definition wf_outcome (o : outcome) (v : val) : Prop :=
-  (exists out, o = Done out /\ strict (need v) out /\ (need v < 4096 -> Valid out = Ok true)) \/ o = OutOfFuel.
+Definition wf_outcome (o : outcome) (d : nat) : Prop :=
+  (exists out, o = Done out /\ strict d out /\ (d < 4096 -> Valid out = Ok true)) \/ o = OutOfFuel.
 
+(* d = the state-stack need of the value, one more under NoNullSliceOrMap (a nil slice is then `[]`) *)
 Theorem marshal_wellformed_jit : forall e co flg t v prog,
-  0 < MaxInlineDepth co -> EncOnlyOmitNull co = false -> has_opts flg BitNoNullSliceOrMap = false ->
+  0 < MaxInlineDepth co -> EncOnlyOmitNull co = false ->
   frag e t -> compilable e co t -> has_type (fok_wf prims_jit) t v ->
   compile e co t (has_opts flg BitPointerValue) = COk prog -> need v <= 4096 ->
-  wf_outcome (encode prims_jit e co flg (Some (t, v))) v.
+  wf_outcome (encode prims_jit e co flg (Some (t, v))) (need v + nil_depth (has_opts flg BitNoNullSliceOrMap)).
 Proof.
-  intros e co flg t v prog Hin Hnu Hflg Ht Hcp Hv Hc Hn.
-  destruct (marshal_wellformed prims_jit e co jit_i64 jit_u64 ltac:(reflexivity) ltac:(discriminate) Hnu Hin flg t v prog Hflg Ht Hcp Hv Hc) as (out & Hs & [Ho|Ho]).
+  intros e co flg t v prog Hin Hnu Ht Hcp Hv Hc Hn.
+  destruct (marshal_wellformed prims_jit e co jit_i64 jit_u64 ltac:(reflexivity) ltac:(discriminate) Hnu Hin flg t v prog Ht Hcp Hv Hc) as (out & Hs & [Ho|Ho]).
   - change (p_stack prims_jit) with 4096%N. lia.
-  - left. exists out. repeat split; [exact Ho|exact Hs|]. intro Hd. eapply strict_valid; eassumption.
+  - left. exists out. repeat split; [exact Ho|exact Hs|]. intro Hd. eapply strict_valid; [exact Hs|exact Hd].
   - right. exact Ho.
 Qed.
 
 Theorem marshal_wellformed_vm : forall e co flg t v prog,
-  0 < MaxInlineDepth co -> EncOnlyOmitNull co = false -> has_opts flg BitNoNullSliceOrMap = false ->
+  0 < MaxInlineDepth co -> EncOnlyOmitNull co = false ->
   frag e t -> compilable e co t -> has_type (fok_wf prims_vm) t v ->
   compile e co t (has_opts flg BitPointerValue) = COk prog -> need v <= 4096 ->
-  wf_outcome (encode prims_vm e co flg (Some (t, v))) v.
+  wf_outcome (encode prims_vm e co flg (Some (t, v))) (need v + nil_depth (has_opts flg BitNoNullSliceOrMap)).
 Proof.
-  intros e co flg t v prog Hin Hnu Hflg Ht Hcp Hv Hc Hn.
-  destruct (marshal_wellformed prims_vm e co ltac:(reflexivity) ltac:(reflexivity) ltac:(reflexivity) ltac:(discriminate) Hnu Hin flg t v prog Hflg Ht Hcp Hv Hc) as (out & Hs & [Ho|Ho]).
+  intros e co flg t v prog Hin Hnu Ht Hcp Hv Hc Hn.
+  destruct (marshal_wellformed prims_vm e co ltac:(reflexivity) ltac:(reflexivity) ltac:(reflexivity) ltac:(discriminate) Hnu Hin flg t v prog Ht Hcp Hv Hc) as (out & Hs & [Ho|Ho]).
   - change (p_stack prims_vm) with 4096%N. lia.
-  - left. exists out. repeat split; [exact Ho|exact Hs|]. intro Hd. eapply strict_valid; eassumption.
+  - left. exists out. repeat split; [exact Ho|exact Hs|]. intro Hd. eapply strict_valid; [exact Hs|exact Hd].
   - right. exact Ho.
 Qed.
